@@ -139,6 +139,8 @@ def session_oracles(sess, obs, ref, which):
                     touched = True
                 if done:
                     return "C05", "command %d: an error item after the completion" % (k + 1)
+            elif t == "PX":
+                return "C05", "command %d: the stream answered Pending although the transport did not report 'not ready' during that poll (nothing will wake the caller: it stays pending while the transport can progress)" % (k + 1)
             elif t == "P":
                 pass
         if done and toks and toks[-1] != "N" and len(toks) < 40:
